@@ -2,13 +2,107 @@
 C05 — Anti-entropy always makes progress and converges in bounded rounds.
 Replicas are modelled in `Model/Sync.lean` (store + incrementally maintained tree; a pull hashes
 both trees, serialises, diffs, fetches the returned ranges from the sender's store, merges and
-upserts). Values are identified with their digests. Merge rules: join (max) and peer-wins.
+upserts). Values are identified with their digests. Merge rules: join and peer-wins, where the join
+is the `⊔` of ANY join-semilattice on the values (`…_join` theorems, `[SemilatticeSup V]`); the max
+of a linear order is the special case proved first historically and kept under the old names, now
+as corollaries.
 -/
 import MstVerif.Proofs.SyncConv
+import MstVerif.Proofs.JoinExample
 
 namespace Mst.Props
 open Mst
+
+/-! ### Any deterministic join (arbitrary join-semilattice), or peer-wins -/
+
+section Join
+variable {K V D : Type} [LinearOrder K] [SemilatticeSup V] [DecidableEq V] [DecidableEq D]
+
+/-- For any two replicas with different content, pulling the diff ranges in at least one of the
+two directions and merging — by the join `⊔` of ANY join-semilattice on the values, or by
+peer-wins — changes the receiver: for every pair of contents, every level structure, whatever cache
+state the two trees carry; up to digest collisions. (If neither pull changed its receiver then at a
+differing key `x ⊔ y = x` and `y ⊔ x = y`, hence `x = y`.) -/
+theorem C05_progress_join (lvl : K → Nat) (hlvl : ∀ k, lvl k < 255) (hc : HashCfg K V D)
+    (hnc : NoCollisions hc) (m : Merge)
+    (a b : Replica K V D) (ha : RInv lvl hc a) (hb : RInv lvl hc b) (hne : a.store ≠ b.store) :
+    (∃ a' b', pull lvl hc m a b = .ok (a', b') ∧ a'.store ≠ a.store) ∨
+    (∃ b' a', pull lvl hc m b a = .ok (b', a') ∧ b'.store ≠ b.store) :=
+  pull_progress lvl hlvl hc hnc m a b ha hb hne
+
+/-- Non-vacuity of `C05_progress_join` on a NON-linear lattice (`Bits`: bit masks under `|||`, where
+`1` and `2` are incomparable): two consistent replicas with different stores, holding incomparable
+values at a common key, under a collision-free hasher; hence one of the two pulls changes its
+receiver. -/
+example : ∃ a b : Replica Nat Bits (List UInt8), RInv Bits.lvl Bits.cfg a ∧ RInv Bits.lvl Bits.cfg b ∧
+    a.store = [(1, 1), (5, 1)] ∧ b.store = [(1, 2)] ∧ NoCollisions Bits.cfg ∧
+    ((∃ a' b', pull Bits.lvl Bits.cfg .joinMax a b = .ok (a', b') ∧ a'.store ≠ a.store) ∨
+     (∃ b' a', pull Bits.lvl Bits.cfg .joinMax b a = .ok (b', a') ∧ b'.store ≠ b.store)) := by
+  obtain ⟨a, ha, sa⟩ := Bits.exists_replica [(1, 1), (5, 1)]
+  obtain ⟨b, hb, sb⟩ := Bits.exists_replica [(1, 2)]
+  have ea : a.store = [(1, 1), (5, 1)] := sa
+  have eb : b.store = [(1, 2)] := sb
+  refine ⟨a, b, ha, hb, ea, eb, Bits.cfg_noCollisions, ?_⟩
+  exact C05_progress_join Bits.lvl Bits.lvl_lt Bits.cfg Bits.cfg_noCollisions .joinMax a b ha hb
+    (by rw [ea, eb]; decide)
+
+/-- Repeated two-way sync rounds (as `tests/sync.rs`: b pulls from a, then a pulls from b) never
+panic and, after at most as many rounds as there were disagreeing keys, both replicas hold the
+same content and report the same root hash; under the join merge — the `⊔` of ANY join-semilattice —
+the common content is exactly the pointwise join of the two initial contents.
+
+The bound `disagree` survives the generalisation although a fetched key no longer agrees after the
+fetch (the receiver moves to `x ⊔ y`, which may differ from both `x` and `y`, and one diff is complete
+only under the span condition of C07): a case analysis on the two key spans (`round_agree`,
+`Proofs/SyncJoin.lean`) shows that the reverse pull of the same round covers such a key, or that
+another disagreeing key is settled. Exhaustive runs of the model (`tools/join_rounds_scan.lean`) over
+all pairs of stores with ≤ 4 keys × values {absent, 1, 2, 3} (bit masks) × all assignments of 3
+levels (5.3 M pairs), and ≤ 5 keys × 2 levels (33.5 M pairs), found no pair needing more than
+`disagree` rounds before the proof was attempted. -/
+theorem C05_rounds_join (lvl : K → Nat) (hlvl : ∀ k, lvl k < 255) (hc : HashCfg K V D)
+    (hnc : NoCollisions hc) (m : Merge)
+    (a b : Replica K V D) (ha : RInv lvl hc a) (hb : RInv lvl hc b)
+    (n : Nat) (hn : disagree a.store b.store ≤ n) :
+    ∃ a' b', syncRounds lvl hc m n a b = .ok (a', b') ∧ RInv lvl hc a' ∧ RInv lvl hc b' ∧
+      a'.store = b'.store ∧
+      (a'.tree.genRootHash hc).rootHash = (b'.tree.genRootHash hc).rootHash ∧
+      (m = .joinMax → ∀ k, lookupKV k a'.store = joinLookup a.store b.store k) :=
+  sync_converges lvl hlvl hc hnc m a b ha hb n hn
+
+/-- Non-vacuity of `C05_rounds_join` on the non-linear lattice `Bits`: the replicas above disagree on
+two keys; after two rounds both hold, at the common key, the join `3 = 1 ⊔ 2` that NEITHER held
+before, and the key only one of them had. -/
+example : ∃ a b a' b' : Replica Nat Bits (List UInt8),
+    a.store = [(1, 1), (5, 1)] ∧ b.store = [(1, 2)] ∧ disagree a.store b.store = 2 ∧
+    syncRounds Bits.lvl Bits.cfg .joinMax 2 a b = .ok (a', b') ∧ a'.store = b'.store ∧
+    lookupKV 1 a'.store = some 3 ∧ lookupKV 5 a'.store = some 1 := by
+  obtain ⟨a, ha, sa⟩ := Bits.exists_replica [(1, 1), (5, 1)]
+  obtain ⟨b, hb, sb⟩ := Bits.exists_replica [(1, 2)]
+  have ea : a.store = [(1, 1), (5, 1)] := sa
+  have eb : b.store = [(1, 2)] := sb
+  have hd : disagree a.store b.store = 2 := by rw [ea, eb]; decide
+  obtain ⟨a', b', h1, -, -, h2, -, h3⟩ :=
+    C05_rounds_join Bits.lvl Bits.lvl_lt Bits.cfg Bits.cfg_noCollisions .joinMax a b ha hb 2 (le_of_eq hd)
+  refine ⟨a, b, a', b', ea, eb, hd, h1, h2, ?_, ?_⟩
+  · rw [h3 rfl, ea, eb]; decide
+  · rw [h3 rfl, ea, eb]; decide
+
+/-- Quiescence: once converged, further rounds exchange nothing (any join, or peer-wins). -/
+theorem C05_quiescent_join (lvl : K → Nat) (hlvl : ∀ k, lvl k < 255) (hc : HashCfg K V D) (m : Merge)
+    (a b : Replica K V D) (ha : RInv lvl hc a) (hb : RInv lvl hc b) (heq : a.store = b.store) :
+    ∃ a' b', syncRound lvl hc m a b = .ok (a', b') ∧ a'.store = a.store ∧ b'.store = b.store :=
+  sync_quiescent lvl hlvl hc m a b ha hb heq
+
+end Join
+
+/-! ### The max of a linear order (corollaries: a linear order is a join-semilattice with `⊔ = max`) -/
+
 variable {K V D : Type} [LinearOrder K] [LinearOrder V] [DecidableEq D]
+
+/-- On a linear order the join merge of the model is the former "keep the larger value". -/
+theorem C05_joinMax_linear (o v : V) :
+    Merge.apply .joinMax (some o) v = if o < v then v else o :=
+  apply_joinMax_linear o v
 
 /-- For any two replicas with different content, pulling the diff ranges in at least one of the
 two directions and merging (join or peer-wins) changes the receiver — for every pair of contents,
@@ -18,7 +112,7 @@ theorem C05_progress (lvl : K → Nat) (hlvl : ∀ k, lvl k < 255) (hc : HashCfg
     (a b : Replica K V D) (ha : RInv lvl hc a) (hb : RInv lvl hc b) (hne : a.store ≠ b.store) :
     (∃ a' b', pull lvl hc m a b = .ok (a', b') ∧ a'.store ≠ a.store) ∨
     (∃ b' a', pull lvl hc m b a = .ok (b', a') ∧ b'.store ≠ b.store) :=
-  pull_progress lvl hlvl hc hnc m a b ha hb hne
+  C05_progress_join lvl hlvl hc hnc m a b ha hb hne
 
 /-- Repeated two-way sync rounds (as `tests/sync.rs`: b pulls from a, then a pulls from b) never
 panic and, after at most as many rounds as there were disagreeing keys, both replicas hold the
@@ -32,13 +126,13 @@ theorem C05_rounds (lvl : K → Nat) (hlvl : ∀ k, lvl k < 255) (hc : HashCfg K
       a'.store = b'.store ∧
       (a'.tree.genRootHash hc).rootHash = (b'.tree.genRootHash hc).rootHash ∧
       (m = .joinMax → ∀ k, lookupKV k a'.store = joinLookup a.store b.store k) :=
-  sync_converges lvl hlvl hc hnc m a b ha hb n hn
+  C05_rounds_join lvl hlvl hc hnc m a b ha hb n hn
 
 /-- Quiescence: once converged, further rounds exchange nothing. -/
 theorem C05_quiescent (lvl : K → Nat) (hlvl : ∀ k, lvl k < 255) (hc : HashCfg K V D) (m : Merge)
     (a b : Replica K V D) (ha : RInv lvl hc a) (hb : RInv lvl hc b) (heq : a.store = b.store) :
     ∃ a' b', syncRound lvl hc m a b = .ok (a', b') ∧ a'.store = a.store ∧ b'.store = b.store :=
-  sync_quiescent lvl hlvl hc m a b ha hb heq
+  C05_quiescent_join lvl hlvl hc m a b ha hb heq
 
 /-- The hypotheses are met by every replica state reachable from fresh replicas (see C06_refine);
 in particular by the fresh replica. -/
@@ -46,3 +140,9 @@ theorem C05_reachable (lvl : K → Nat) (hc : HashCfg K V D) : RInv lvl hc (Repl
   Replica.empty_inv lvl hc
 
 end Mst.Props
+
+#print axioms Mst.Props.C05_progress_join
+#print axioms Mst.Props.C05_rounds_join
+#print axioms Mst.Props.C05_quiescent_join
+#print axioms Mst.Props.C05_progress
+#print axioms Mst.Props.C05_rounds
